@@ -459,6 +459,10 @@ class MemorizedFunc(Logger):
 
         self._func_code_info = None
         self._func_code_id = None
+        # Retrieve the source code of the function now: if the source file is
+        # edited (and possibly reloaded) before the first call, reading it
+        # lazily would attribute the new code to this definition.
+        _ = self.func_code_info
 
     def _is_in_cache_and_valid(self, call_id):
         """Check if the function call is cached and valid for given arguments.
